@@ -44,6 +44,26 @@ func (w *recWriter) Write(b []byte) (int, error) {
 	return len(b), nil
 }
 
+// hdrRepr: the X-H value and, when present, every value of the multi-valued X-M in order
+func hdrRepr(h http.Header) string {
+	x := h.Get("X-H")
+	if vs, ok := h["X-M"]; ok {
+		x += ";X-M=" + strings.Join(vs, ",")
+	}
+	return x
+}
+
+func hx(hset, mset bool) string {
+	x := ""
+	if hset {
+		x = "1"
+	}
+	if mset {
+		x += ";X-M=a,b"
+	}
+	return x
+}
+
 func (w *recWriter) summary() string {
 	st := 0
 	if len(w.writeHeaders) > 0 {
@@ -51,7 +71,7 @@ func (w *recWriter) summary() string {
 	}
 	x := ""
 	if w.hdrAtCommit != nil {
-		x = w.hdrAtCommit.Get("X-H")
+		x = hdrRepr(w.hdrAtCommit)
 	}
 	return fmt.Sprintf("%d|X-H=%s|%q", st, x, w.body.String())
 }
@@ -66,53 +86,48 @@ func (b behaviour) String() string { return strings.Join(b, ",") }
 // expected response if the handler runs to completion untouched by the timeout
 func (b behaviour) clean() (summary string, panics bool) {
 	st, x, body := 0, "", ""
-	hset := false
+	hset, mset := false, false
 	for _, s := range b {
 		switch {
 		case s == "H":
 			if st == 0 {
 				hset = true
 			}
+		case s == "HM":
+			// two values under one key (Set-Cookie, Vary, Link ...): both reach the client, in order
+			if st == 0 {
+				mset = true
+			}
 		case s == "W0" || s == "W999":
 			// an out-of-range status makes WriteHeader itself panic (net/http's rule): like P
 			if st == 0 {
 				st = 500
-				if hset {
-					x = "1"
-				}
+				x = hx(hset, mset)
 			}
 			return fmt.Sprintf("%d|X-H=%s|%q", st, x, body), true
 		case strings.HasPrefix(s, "W"):
 			if st == 0 {
 				fmt.Sscanf(s, "W%d", &st)
-				if hset {
-					x = "1"
-				}
+				x = hx(hset, mset)
 			}
 		case strings.HasPrefix(s, "B"):
 			if st == 0 {
 				st = 200
-				if hset {
-					x = "1"
-				}
+				x = hx(hset, mset)
 			}
 			body += s[1:]
 		case strings.HasPrefix(s, "P"):
 			if st == 0 {
 				// RecoverHandler answers 500 when nothing was committed
 				st = 500
-				if hset {
-					x = "1"
-				}
+				x = hx(hset, mset)
 			}
 			return fmt.Sprintf("%d|X-H=%s|%q", st, x, body), true
 		}
 	}
 	if st == 0 {
 		st = 200
-		if hset {
-			x = "1"
-		}
+		x = hx(hset, mset)
 	}
 	return fmt.Sprintf("%d|X-H=%s|%q", st, x, body), false
 }
@@ -130,6 +145,9 @@ func (b behaviour) handler(o *gObs) http.Handler {
 			switch {
 			case s == "H":
 				w.Header().Set("X-H", "1")
+			case s == "HM":
+				w.Header().Add("X-M", "a")
+				w.Header().Add("X-M", "b")
 			case strings.HasPrefix(s, "W"):
 				var c int
 				fmt.Sscanf(s, "W%d", &c)
@@ -175,6 +193,8 @@ func guardBehaviours() []behaviour {
 		{},
 		{"Ba"},
 		{"H", "W201", "Ba", "Bb"},
+		{"HM", "W201", "Ba"},
+		{"H", "HM", "Ba", "S150", "Bb"},
 		{"W404"},
 		{"H", "Ba", "Y", "Bb"},
 		{"S50", "H", "W201", "Ba"},
